@@ -54,3 +54,158 @@ Proof.
     pose proof (E _ _ _ L) as C. destruct md; [|exact C].
     destruct u; cbn in *; auto; discriminate.
 Qed.
+
+Lemma clean_fields_in fs f : clean_fields fs = true -> In f fs -> clean false false (snd f) = true.
+Proof.
+  unfold clean_fields. induction fs as [|a fs IH]; intros H Hin; [destruct Hin|].
+  apply andb_prop in H as [H1 H2]. destruct Hin as [<-|Hin]; auto.
+Qed.
+
+Lemma fields_r_not_unsup (g : ty -> val -> val -> res bool) fs : forall xs ys,
+  (forall ft a b, In ft (map snd fs) -> In a xs -> g ft a b <> Unsup) ->
+  fields_r g fs xs ys <> Unsup.
+Proof.
+  induction fs as [|fd fs IH]; intros [|a xs] [|b ys] H; cbn; try discriminate.
+  destruct (g (snd fd) a b) eqn:G; cbn; try discriminate.
+  - destruct a0; [|discriminate]. apply IH. intros ft a' b' Hft Ha. apply H; [right; exact Hft| right; exact Ha].
+  - exfalso. apply (H (snd fd) a b); [left; reflexivity| left; reflexivity| exact G].
+Qed.
+
+Lemma elems_r_not_unsup (g : val -> val -> res bool) xs : forall ys,
+  (forall a b, In a xs -> g a b <> Unsup) -> elems_r g xs ys <> Unsup.
+Proof.
+  induction xs as [|a xs IH]; intros [|b ys] H; cbn; try discriminate.
+  destruct (g a b) eqn:G; cbn; try discriminate.
+  - destruct a0; [|discriminate]. apply IH. intros a' b' Ha. apply H. right; exact Ha.
+  - exfalso. apply (H a b); [left; reflexivity| exact G].
+Qed.
+
+Lemma entries_r_not_unsup (g : val -> val -> res bool) xm ym :
+  (forall kv b, In kv xm -> g (snd kv) b <> Unsup) -> entries_r g xm ym <> Unsup.
+Proof.
+  induction xm as [|kv xm IH]; intros H; cbn; try discriminate.
+  destruct (map_get (fst kv) ym) as [v'|]; [|discriminate].
+  destruct (g (snd kv) v') eqn:G; cbn; try discriminate.
+  - destruct a; [|discriminate]. apply IH. intros kv' b Hkv. apply H. right; exact Hkv.
+  - exfalso. apply (H kv v'); [left; reflexivity| exact G].
+Qed.
+
+Lemma clean_root_weaken t : forall nm, clean nm false t = true -> clean nm true t = true.
+Proof.
+  induction t; intros nm H; cbn in *; auto.
+  apply andb_prop in H as [H1 H2]. rewrite H2. rewrite Bool.orb_true_r. destruct nm; reflexivity.
+Qed.
+
+Lemma clean_st_fields n r fs : clean n r (TSt fs) = true -> clean_fields fs = true.
+Proof. cbn. intros H. apply andb_prop in H as [_ H]. exact H. Qed.
+
+(* what the chosen strategy recurses on is again a clean position *)
+Definition strat_good (s : strat) : Prop :=
+  match s with
+  | SEqEq | SBytes => True
+  | SPtrNoStruct e' rt => env_ok e' /\ pos_ok Top rt = true
+  | SPtrInline e' rt => env_ok e' /\ pos_ok Fld rt = true
+  | SPtrStruct e' fs =>
+      (* the field loop is the body of the helper for the (named struct) referent *)
+      exists e0 rt, env_ok e0 /\ pos_ok Top rt = true /\ strategy e0 Top rt = SFields e' fs
+  | SFields e' fs => env_ok e' /\ clean_fields fs = true
+  | SSlice e' et | SArray e' et | SMap e' et => env_ok e' /\ pos_ok Fld et = true
+  | SUnsup => False
+  | SStuck => True
+  end.
+
+Lemma strat_ptr_good e' rt : env_ok e' -> is_struct rt = false -> clean false false rt = true ->
+  strat_good (strat_ptr e' rt).
+Proof.
+  intros E NS C. unfold strat_ptr. destruct (resolve e' rt) as [rr|] eqn:RR; [|exact I].
+  destruct (resolve_clean e' Fld rt rr E C RR) as [E2 C2].
+  destruct (r_node rr) eqn:NN; try (cbn; split; [exact E| apply clean_root_weaken; exact C]).
+  destruct (is_named rr) eqn:NM.
+  - cbn. exists e', rt. split; [exact E|]. split; [apply clean_root_weaken; exact C|].
+    unfold strategy. rewrite RR. cbn zeta. rewrite NN, NM. reflexivity.
+  - (* an unnamed referent is the referent itself, which is not a struct *)
+    destruct (resolve_unnamed e' rt rr RR NM) as [Ert _]. rewrite NN in Ert. subst rt. discriminate.
+Qed.
+
+Lemma strategy_good e md t : env_ok e -> pos_ok md t = true -> strat_good (strategy e md t).
+Proof.
+  intros E P. unfold strategy. destruct (resolve e t) as [r|] eqn:R; [|exact I].
+  destruct (resolve_clean e md t r E P R) as [E' C]. cbn zeta.
+  destruct md.
+  - destruct (r_node r) eqn:N; try exact I.
+    + cbn in C. apply andb_prop in C as [C1 C2]. apply strat_ptr_good; [exact E'| apply Bool.negb_true_iff; exact C1| exact C2].
+    + cbn. split; [exact E'| exact C].
+    + cbn. split; [exact E'| exact C].
+    + cbn in C. apply andb_prop in C as [_ C2]. cbn. split; [exact E'| exact C2].
+    + destruct (is_named r); [cbn; split; [exact E'| apply (clean_st_fields _ _ _ C)]|].
+      destruct (can_equal t); [exact I|]. cbn. split; [exact E'| apply (clean_st_fields _ _ _ C)].
+  - destruct (can_equal t) eqn:CE; [exact I|].
+    destruct (r_node r) eqn:N; try exact I.
+    + cbn in C. apply andb_prop in C as [C1 C2].
+      destruct (resolve (r_env r) t0) as [rr|] eqn:RR; [|exact I].
+      destruct (is_named rr); [apply strat_ptr_good; [exact E'| apply Bool.negb_true_iff; exact C1| exact C2]|].
+      cbn. split; [exact E'| exact C2].
+    + destruct (is_byte t0); [exact I|]. cbn. split; [exact E'| exact C].
+    + cbn. split; [exact E'| exact C].
+    + cbn in C. apply andb_prop in C as [_ C2]. cbn. split; [exact E'| exact C2].
+    + destruct (is_named r) eqn:NM; [cbn; split; [exact E'| apply (clean_st_fields _ _ _ C)]|].
+      (* unnamed struct in field position: clean makes it comparable, contradiction with CE *)
+      destruct (resolve_unnamed e t r R NM) as [Et _]. rewrite N in Et. subst t.
+      cbn [clean orb] in C. apply andb_prop in C as [C1 _]. congruence.
+Qed.
+
+(* on clean positions the generator never refuses: no Unsup, for any values *)
+Theorem clean_not_unsup : forall x e md t y,
+  env_ok e -> pos_ok md t = true -> eqm e md t x y <> Unsup.
+Proof.
+  induction x using val_ind'; intros e md t y E P; rewrite eqm_unfold;
+  pose proof (strategy_good e md t E P) as G;
+  destruct (strategy e md t) as [|e' rt|e' sfs|e' rt| |e' et|e' et|e' vt|e' sfs| |]; cbn in G;
+  try discriminate; try contradiction; try (destruct y; discriminate).
+  all: try (unfold bytes_equal, bytes_equal_old; cbn; destruct y; cbn; discriminate).
+  - (* VPtr, referent compared by its own helper *)
+    destruct G as [E' P']. destruct y; try discriminate. apply IHx; assumption.
+  - (* VPtr to a named struct *)
+    destruct G as (e0 & rt & E0 & P0 & S0).
+    destruct x; try (destruct y; discriminate). destruct y; try discriminate. destruct y; try discriminate.
+    match goal with |- fields_r _ _ _ ?ys <> _ => specialize (IHx e0 Top rt (VSt ys) E0 P0) end.
+    rewrite eqm_unfold, S0 in IHx. exact IHx.
+  - (* VPtr inlined *)
+    destruct G as [E' P']. destruct y; try discriminate. apply IHx; assumption.
+  - (* VSl *)
+    destruct G as [E' P']. destruct y; try discriminate.
+    destruct (negb (Nat.eqb (length es) (length es0))); [discriminate|].
+    apply elems_r_not_unsup. intros a b Ha. rewrite Forall_forall in H. apply (H a Ha); assumption.
+  - (* VMap *)
+    destruct G as [E' P']. destruct y; try discriminate.
+    destruct (negb (Nat.eqb (length kvs) (length kvs0))); [discriminate|].
+    apply entries_r_not_unsup. intros kv b Hkv. rewrite Forall_forall in H.
+    destruct (H kv Hkv) as [_ Hv]. apply Hv; assumption.
+  - (* VArr *)
+    destruct G as [E' P']. destruct y; try discriminate.
+    apply elems_r_not_unsup. intros a b Ha. rewrite Forall_forall in H. apply (H a Ha); assumption.
+  - (* VSt *)
+    destruct G as [E' P']. destruct y; try discriminate.
+    apply fields_r_not_unsup. intros ft a b Hft Ha.
+    apply in_map_iff in Hft as [fd [<- Hfd]]. rewrite Forall_forall in H.
+    apply (H a Ha); [exact E'| apply (clean_fields_in _ _ P' Hfd)].
+Qed.
+
+(* hence: on clean types derived Equal IS structural equality, with no alternative *)
+Corollary equal_is_structural_clean t x y :
+  clean false true t = true -> has_type [] t x = true -> has_type [] t y = true ->
+  equal_model t x y = lift (spec_eq [] t x y).
+Proof.
+  intros C Hx Hy. destruct (eqm_spec x [] Top t y Hx Hy) as [_ [U|L]]; [|exact L].
+  exfalso. apply (clean_not_unsup x [] Top t y); [intros id ext u L; discriminate| exact C| exact U].
+Qed.
+
+(* the class is not empty and not trivial: recursive and mutually recursive named structs, pointers,
+   slices, maps, arrays, comparable unnamed structs anywhere, any unnamed struct at the root *)
+Example clean_examples :
+  clean false true (TN 1 false (TSt [(false, TB (KInt 64 true)); (false, TP (TRef 1)); (true, TSl (TRef 1));
+                                     (false, TM (TB KStr) (TSt [(false, TB KF64)]))])) = true
+  /\ clean false true (TSt [(false, TSl (TB KStr))]) = true
+  /\ clean false true (TSl (TSt [(false, TSl (TB KStr))])) = false
+  /\ clean false true (TP (TSt [(false, TB KBool)])) = false.
+Proof. repeat split; reflexivity. Qed.
